@@ -477,6 +477,11 @@ fn handle(line: &str) -> Result<String, String> {
             let src_hex = rest.split(' ').next().unwrap_or("");
             crate::verif_machine::op_machine(rest, &unhex(src_hex)?)
         }
+        "escape" => Ok(hex(&crate::values::escape_string_literal(&unhex(rest)?))),
+        "unescape" => {
+            let (n_diags, s) = crate::parser::verif_unescape_string(&unhex(rest)?);
+            Ok(format!("(unesc {} {})", hex(&s), n_diags))
+        }
         "subtype" | "subtype_ne" | "unify" | "unify_all" | "tydisplay" => op_types(op, rest),
         "lsp_o2p" | "lsp_lc2o" | "lsp_whole" => crate::lsp::verif_lsp_op(op, rest),
         _ => Err(format!("unknown op {op}")),
